@@ -169,6 +169,11 @@ func bashEquiv(r *Run, c *gosym.Ctx, sh Shape, o eqOpts) (out eqOutcome) {
 			// recorded defect class of its own (the emitted statement sees the new value)
 			x.Sub = "variable-read-before-modifying-call"
 		}
+		if in.BreakInSwitch {
+			// a break executed inside a switch clause: recorded defect class (the emitted break acts on the enclosing
+			// loop, or is an error outside one)
+			x.Sub = "break-inside-switch"
+		}
 		if o.CompareFiles {
 			x.ExpFiles = map[string]string{}
 			for p, v := range in.Files {
